@@ -167,6 +167,18 @@ func readHeader(f *os.File) (*header, error) {
 				prevOffset, foundFileSize)
 	}
 
+	if h.compression == Zstandard {
+		// The readers index the chunk table with offset/chunkSize.
+		if h.chunkSize == 0 {
+			return nil, errors.New("invalid chunk size 0")
+		}
+		wantChunks := (h.uncompressedSize + int64(h.chunkSize) - 1) / int64(h.chunkSize)
+		if h.uncompressedSize <= 0 || numOffsets-1 != wantChunks {
+			return nil, fmt.Errorf("chunk table has %d chunks, but %d bytes in chunks of %d need %d",
+				numOffsets-1, h.uncompressedSize, h.chunkSize, wantChunks)
+		}
+	}
+
 	return &h, nil
 }
 
